@@ -790,5 +790,8 @@ func directedC02() []progCase {
 		out = append(out, p)
 	}
 
+	// closures, defer and go created in nested blocks of loop bodies (loopclosure_test.go)
+	out = append(out, loopClosureProbes()...)
+
 	return out
 }
